@@ -22,6 +22,13 @@ const maxSteps = 20000
 
 // run executes the state until its path ends; returns forked states.
 func (st *State) run() []*State {
+	forks := st.run1()
+	forks = append(forks, st.pendingForks...)
+	st.pendingForks = nil
+	return forks
+}
+
+func (st *State) run1() []*State {
 	var forks []*State
 	for !st.dead {
 		st.steps++
@@ -30,6 +37,21 @@ func (st *State) run() []*State {
 			return forks
 		}
 		f := st.top()
+		if f.pendingRecover {
+			// unwound here by a panic: run the deferred calls first
+			f.pendingRecover = false
+			st.runDefers(f)
+			continue
+		}
+		if f.idx == 0 && f.block == f.fn.Recover && st.panicking {
+			// no deferred call recovered: the panic propagates out of the function under proof
+			st.panicking = false
+			if len(st.frames) == 1 {
+				st.oblige("panic", "panic:unrecovered", "false", "a panic is not recovered by "+f.fn.Name())
+				st.dead = true
+				return forks
+			}
+		}
 		if f.idx == 0 {
 			if st.enterBlock(f) {
 				return forks
@@ -67,12 +89,20 @@ func (st *State) run() []*State {
 			}
 		case *ssa.Panic:
 			st.doPanic(f, x)
-			return forks
+			if st.dead {
+				return forks
+			}
 		default:
 			more := st.step(f, ins)
 			forks = append(forks, more...)
 		}
+		if len(st.pendingForks) > 0 {
+			forks = append(forks, st.pendingForks...)
+			st.pendingForks = nil
+		}
 	}
+	forks = append(forks, st.pendingForks...)
+	st.pendingForks = nil
 	return forks
 }
 
@@ -171,6 +201,9 @@ func clauseLabel(c *Clause, i int) string {
 
 // measureDecreases: new < old and old > 0 (signed for BV, Int otherwise)
 func (st *State) measureDecreases(m Value, old string) string {
+	if m.S.IsBV() && m.T != nil && !isSigned(m.T) {
+		return app("bvult", m.Term, old)
+	}
 	if m.S.IsBV() {
 		return and(app("bvslt", m.Term, old), app("bvsge", m.Term, bvInt(0, m.S.Bits())))
 	}
@@ -358,6 +391,7 @@ func (st *State) doReturn(f *Frame, x *ssa.Return) bool {
 	}
 	if len(st.frames) == 1 {
 		// top-level: postconditions
+		st.checkCtorInv(f, results, x)
 		c := f.contract
 		if c != nil {
 			env := st.specEnv(f, results, true)
@@ -393,6 +427,12 @@ func (st *State) doReturn(f *Frame, x *ssa.Return) bool {
 }
 
 func (st *State) doPanic(f *Frame, x *ssa.Panic) {
+	if i := st.recoveringFrame(); i >= 0 {
+		if !st.unwindTo(i) {
+			st.dead = true
+		}
+		return
+	}
 	c := st.frames[0].contract
 	if c != nil && c.MayPanic {
 		st.dead = true
@@ -401,6 +441,7 @@ func (st *State) doPanic(f *Frame, x *ssa.Panic) {
 	name := "panic:" + st.eng.ordinal(f.fn, x, "explicit")
 	st.oblige("panic", name, "false", "explicit panic at "+st.pos(x))
 	st.dead = true
+	return
 }
 
 // ---------------------------------------------------------------------------
@@ -446,6 +487,9 @@ func (st *State) step(f *Frame, ins ssa.Instruction) []*State {
 			return nil
 		}
 		st.panicOb(x, "nil", not(eq(base.Term, nilRef)), "nil pointer dereference (field "+fieldName(x)+")")
+		if len(st.eng.cs.TypeInvs) > 0 && st.eng.typeInvFor(x.X.Type()) != nil && !st.eng.typeInvFor(x.X.Type()).isCtor(f.fn) {
+			st.assume(st.typeInvTerm(Value{T: x.X.Type(), S: SRef, Term: base.Term}, st.heap))
+		}
 		f.regs[x] = Value{T: x.Type(), S: SRef, Term: sub(base.Term, x.Field)}
 	case *ssa.Field:
 		v := st.eval(x.X)
